@@ -398,3 +398,41 @@ def in_context_v1(ctx, lines):
 
 def pair_v1(l1, l2):
     return "define flow t\n  user start\n" + "\n".join(_ind(l1, 1) + _ind(l2, 1)) + "\n\ndefine subflow sub\n  bot s\n"
+
+
+# ---------------------------------------------------------------- multi-branch `when` groups with unequal branch lengths
+def when_family(version, max_cases, max_len):
+    """3..max_cases branches, every combination of branch lengths 1..max_len, at the end of the flow / followed by a
+    statement / inside a loop / with a terminator in one branch"""
+    for ncase in range(3, max_cases + 1):
+        for lens in itertools.product(range(1, max_len + 1), repeat=ncase):
+            for ctx in ("end", "followed", "loop"):
+                for haselse in ((False,) if version == "1.0" else (False, True)):
+                    lines, k = [], 0
+                    for i, n in enumerate(lens):
+                        if version == "1.0":
+                            lines.append(f"{'when' if i == 0 else 'else when'} user w{i}")
+                            body = [f"{'bot' if j % 2 == 0 else 'user'} x{i}{j}" for j in range(n)]
+                        else:
+                            lines.append(f"{'when' if i == 0 else 'or when'} W{i}()")
+                            body = [f"match X{i}{j}()" for j in range(n)]
+                        lines += ["  " + b for b in body]
+                        k += n
+                    if haselse:
+                        lines += ["else", "  match Y()"]
+                    if version == "1.0":
+                        if ctx == "end":
+                            body = ["  user start"] + _ind(lines, 1)
+                        elif ctx == "followed":
+                            body = ["  user start"] + _ind(lines, 1) + ["  bot end"]
+                        else:
+                            body = ["  user start", "  while $c"] + _ind(lines, 2)
+                        yield (ncase, lens, ctx, haselse), "define flow t\n" + "\n".join(body) + "\n"
+                    else:
+                        if ctx == "end":
+                            body = _ind(lines, 1)
+                        elif ctx == "followed":
+                            body = _ind(lines, 1) + ["  match Z()"]
+                        else:
+                            body = ["  while $c"] + _ind(lines, 2)
+                        yield (ncase, lens, ctx, haselse), V2_HELPERS + "flow main\n" + "\n".join(body) + "\n"
